@@ -88,6 +88,23 @@ def main(run):
         lem = DISCHARGE.get(caller.split('::{closure')[0])
         if lem is None:
             run.violation(f'panic|{caller}|{sink}', f'{caller} can reach {sink} on a comparison/hash path of a percent-decoded component and no lemma discharges it')
+    # the library's own use of the partial view operations: pct_str's Chars::next unwraps the UTF-8 decoder's result, which fails for
+    # valid components (lemma TOTAL does not hold: that is the recorded finding about the view itself); no function of iref may
+    # therefore reach it — a function that does panics for valid values
+    total_w = next((bytes(w) for (S, m), w in sorted(res.items()) if m == 'TOTAL' and w is not None), None)
+    n_all = 0
+    for d, ids in sorted(G.roots.items()):
+        for rid in ids:
+            n_all += 1
+            seen = G.reach(rid)
+            hit = [(c, s) for (c, k, s) in G.panic_sites(seen) if k in ('pct_str', 'utf8_decode') and DISCHARGE.get(c.split('::{closure')[0]) == 'TOTAL']
+            if hit and total_w is not None:
+                node = G.nodes[rid]
+                run.violation(f'total-use|{d}', f'{d} can reach {hit[0][0]} (the UTF-8 unwrap of the percent-decoded character iterator): it panics for valid values whose '
+                              f'escapes do not decode to UTF-8, e.g. a component {total_w!r}; compare / iterate the decoded OCTETS (bytes()) instead')
+            elif hit:
+                run.count('total_uses_discharged')
+    run.cov['roots_walked_for_partial_view_ops'] = n_all
     run.cov['comparison_roots_walked'] = n_roots
     if n_roots < 20:
         run.violation('floor|cmp_roots', f'only {n_roots} eq/cmp/hash roots of the percent-decodable components were found in the instance graph')
